@@ -4,6 +4,7 @@ import (
 	"encoding/json"
 	"fmt"
 	"go/types"
+	"math/big"
 	"os"
 	"os/exec"
 	"path/filepath"
@@ -373,8 +374,27 @@ func (t *InTree) goExpr(m map[string]string) string {
 		}
 		return "GVC_UNSUPPORTED_IFACE"
 	case "time":
-		v, _ := modelInt(m, t.Term)
-		return fmt.Sprintf("time.Unix(0, %d)", v)
+		v := t.Term
+		if mv, ok := m[t.Term]; ok {
+			v = mv
+		}
+		v = strings.TrimSpace(v)
+		neg := false
+		if mm := negRe.FindStringSubmatch(v); mm != nil {
+			neg, v = true, mm[1]
+		}
+		n, ok := new(big.Int).SetString(v, 10)
+		if !ok {
+			return "GVC_UNSUPPORTED_TIME"
+		}
+		if neg {
+			n.Neg(n)
+		}
+		sec, nsec := new(big.Int).DivMod(n, big.NewInt(1000000000), new(big.Int))
+		if !sec.IsInt64() {
+			return "GVC_UNSUPPORTED_TIME"
+		}
+		return fmt.Sprintf("time.Unix(%d, %d)", sec.Int64(), nsec.Int64())
 	}
 	// zero value
 	return fmt.Sprintf("*new(%s)", t.GoType)
